@@ -22,7 +22,7 @@
 (***************************************************************************)
 EXTENDS MapPost
 
-CONSTANTS MaxItems, EmitFlow
+CONSTANTS MaxItems, MinItems, EmitFlow     \* MinItems: finish only after this many items (0 for model checking; = MaxItems for `tlc -simulate`)
 
 It(kind, v) == [kind |-> kind, v |-> v]
 FlowLines ==
@@ -69,7 +69,7 @@ FInit == /\ fh = <<>> /\ fdone = FALSE
 FStep == /\ ~fdone /\ Len(fh) < MaxItems
          /\ \E k \in 1..Len(Items) : fh' = Append(fh, k)
          /\ UNCHANGED <<fdone, pvars, vars>>
-FFinish == /\ ~fdone /\ fdone' = TRUE
+FFinish == /\ ~fdone /\ Len(fh) >= MinItems /\ fdone' = TRUE
            /\ (EmitFlow => PrintT("CASE " \o ToJson([h |-> fh, out |-> Outcome(Fold(FState0, fh))])))
            /\ UNCHANGED <<fh, pvars, vars>>
 FSpec == FInit /\ [][FStep \/ FFinish]_<<fvars, pvars, vars>>
